@@ -63,6 +63,7 @@ var (
 	fID       = flag.String("id", "0", "worker id (file names)")
 	fVariant  = flag.String("variant", "plain", "build variant name")
 	fInstr    = flag.Bool("instr", false, "binary was built with the statement-yield overlay")
+	fWide     = flag.Bool("wide", false, "the overlay also instruments every file under primitives/")
 	fTags     = flag.String("tags", "", "build tags used (recorded in replay files)")
 	fReplay   = flag.String("replay", "", "replay file: execute its tape once and print the violations as JSON")
 	fNoShrink = flag.Bool("noshrink", false, "do not minimise failing tapes in-process")
@@ -99,7 +100,7 @@ func main() {
 		fmt.Fprintln(os.Stderr, "vsim: unknown workload", *fW)
 		os.Exit(2)
 	}
-	env := &work.Env{Sim: rt.New(), Tier: *fTier, Race: raceEnabled, Instr: *fInstr, Variant: *fVariant}
+	env := &work.Env{Sim: rt.New(), Tier: *fTier, Race: raceEnabled, Instr: *fInstr, Wide: *fWide, Variant: *fVariant}
 	if raceEnabled && *fRaceLog != "" {
 		env.RaceCheck = newRaceWatcher(fmt.Sprintf("%s.%d", *fRaceLog, os.Getpid()))
 	}
@@ -162,7 +163,7 @@ func main() {
 			fold[k] ^= r.Fingerprint[k]
 		}
 		if fpl != nil {
-			fmt.Fprintf(fpl, "%d %x\n", idx, r.Fingerprint[:16])
+			fmt.Fprintf(fpl, "%d %x %d\n", idx, r.Fingerprint[:16], len(r.Violations))
 		}
 		if r.Nontrivial {
 			res.Nontrivial++
@@ -177,7 +178,7 @@ func main() {
 				continue
 			}
 			seen[v.ID()] = true
-			path := writeReplay(env, w, v, runSeed, idx, tape.Record(), r.Trace)
+			path := writeReplay(env, w, v, runSeed, idx, tape.Record(), r.Trace, i)
 			res.Violations = append(res.Violations, Found{v, path, idx})
 		}
 	}
@@ -268,9 +269,15 @@ func buildInfo(env *work.Env) core.BuildInfo {
 	return core.BuildInfo{Variant: env.Variant, Tags: *fTags, Godebug: os.Getenv("GODEBUG"), Race: env.Race, Instrumented: env.Instr}
 }
 
-func writeReplay(env *work.Env, w *work.Workload, v core.Violation, runSeed, idx uint64, rec core.Rec, trace []string) string {
+func writeReplay(env *work.Env, w *work.Workload, v core.Violation, runSeed, idx uint64, rec core.Rec, trace []string, before uint64) string {
 	rp := &core.Replay{Property: v.Property, Phase: w.Name, Class: v.Class, Key: v.Key, Detail: v.Detail,
-		BaseSeed: *fSeed, RunSeed: runSeed, RunIndex: idx, Tier: *fTier, Build: buildInfo(env)}
+		BaseSeed: *fSeed, RunSeed: runSeed, RunIndex: idx, Tier: *fTier, Build: buildInfo(env),
+		PrefixStart: *fStart, PrefixStride: *fStride, PrefixCount: before}
+	{
+		o := &core.Replay{}
+		o.SetRec(rec)
+		rp.TapeOrig = o.Tape
+	}
 	orig := 0
 	for i := range rec {
 		orig += len(rec[i])
@@ -337,7 +344,20 @@ func doReplay(env *work.Env) int {
 			return 2
 		}
 	}
-	r, infra := execute(env, w, rp.RunSeed, rp.RunIndex, core.ReplayTape(rp.Rec()), true)
+	rec := rp.Rec()
+	if rp.NeedsPrefix {
+		// re-create the process history the failing run had
+		for i := uint64(0); i < rp.PrefixCount; i++ {
+			idx := rp.PrefixStart + i*rp.PrefixStride
+			seed := core.Mix(rp.BaseSeed, core.MixS(w.Name), idx)
+			if _, infra := execute(env, w, seed, idx, core.NewTape(seed), false); infra != "" {
+				fmt.Fprintln(os.Stderr, "vsim:", infra)
+				return 2
+			}
+		}
+		rec = rp.OrigRec()
+	}
+	r, infra := execute(env, w, rp.RunSeed, rp.RunIndex, core.ReplayTape(rec), true)
 	if infra != "" {
 		fmt.Fprintln(os.Stderr, "vsim:", infra)
 		return 2
